@@ -12,3 +12,10 @@ pub assume_specification<T>[Option::<T>::replace](o: &mut Option<T>, value: T) -
     ensures
         r == *old(o),
         *final(o) == Some(value);
+
+pub assume_specification<T, U, F: FnOnce(T) -> U>[Option::<T>::map_or](o: Option<T>, default: U, f: F) -> (r: U)
+    requires
+        o.is_some() ==> f.requires((o.unwrap(),)),
+    ensures
+        o.is_none() ==> r == default,
+        o.is_some() ==> f.ensures((o.unwrap(),), r);
